@@ -423,4 +423,82 @@ theorem arrDeleteElems_exact (pj : PJ) (v : View) (hl : v.lim ≤ pj.tape.size) 
     rintro rfl
     simp
 
+/-- the static condition `EndsInside` implies the run predicate -/
+theorem arrDelInView_of_endsInside (q : Nat → Bool) : ∀ (mf : Nat) (pj : PJ) (i : Iter) (k : Nat),
+    EndsInside i.lim pj.tape → i.lim < 2^56 → 0 ≤ i.addNext → arrDelInView pj q i k mf = true := by
+  intro mf
+  induction mf with
+  | zero => intro pj i k _ _ _; rfl
+  | succ m ih =>
+    intro pj i k hw h56 h0
+    rw [arrDelInView]
+    cases hr : i.advance pj with
+    | ok r =>
+      obtain ⟨i', t⟩ := r
+      simp only []
+      by_cases ht : t = typeNone
+      · simp [ht]
+      · have hb : (t == typeNone) = false := by simp [ht]
+        obtain ⟨f1, f2, f3, f4, f5, f6, w, w1, w2, w3, w4, w5⟩ := advance_facts pj i h0 i' t hr ht
+        simp only [hb, Bool.false_eq_true, if_false]
+        have hk1 : i'.off - 1 + 1 = i'.off := by omega
+        have hend := hw (i'.off - 1) w (by omega) w1 w4
+        rw [hk1, ← w5, ← f1] at hend
+        cases hq : q k with
+        | false => simp only [Bool.false_eq_true, if_false]; exact ih pj i' (k + 1) (by rw [f1]; exact hw) (by omega) f4
+        | true =>
+          simp only [if_true, Bool.and_eq_true, decide_eq_true_eq]
+          refine ⟨hend, ?_⟩
+          cases hnf : View.fillNops pj.tape (i'.off - 1) ((i'.off : Int) + i'.addNext).toNat with
+          | ok tp =>
+            simp only []
+            exact ih { pj with tape := tp } i' (k + 1)
+              (by rw [f1]; exact hw.fill hnf (by omega)) (by omega) f4
+          | panic => rfl
+          | error _ => rfl
+          | diverge => rfl
+    | panic => rfl
+    | error _ => rfl
+    | diverge => rfl
+
+/-- `Array.DeleteElems` IS `View.arrDeleteElems` on every run whose deleted elements end inside the view -/
+theorem arrDeleteElems_sim (pj : PJ) (v : View) (hl : v.lim ≤ pj.tape.size) (e0 : Env) (h0 : RecvIn pj "a" v e0)
+    (hlog : logOf e0 = []) (q : Nat → Bool) (N : Nat) (hres : e0.get "fn.results" = some (.bools (answers N q)))
+    (hN : v.lim - v.off ≤ N) (fuel mf : Nat) (hmf : v.lim - v.off + 1 ≤ mf) (hf : 2 * v.lim + 7 ≤ fuel)
+    (hin : arrDelInView pj q v.iter 0 mf = true) :
+    SimDel N q (runFun goFuns goArray_DeleteElems fuel ⟨e0, pj.tape⟩) (View.arrDeleteElems pj q v.iter 0 #[] mf) := by
+  have := arrDeleteElems_exact pj v hl e0 h0 hlog q N hres hN fuel mf hmf hf
+  rw [if_pos hin] at this
+  exact this
+
+/-- … in particular on every tape whose elements end inside the view -/
+theorem arrDeleteElems_sim_wf (pj : PJ) (v : View) (hl : v.lim ≤ pj.tape.size) (e0 : Env) (h0 : RecvIn pj "a" v e0)
+    (hlog : logOf e0 = []) (q : Nat → Bool) (N : Nat) (hres : e0.get "fn.results" = some (.bools (answers N q)))
+    (hN : v.lim - v.off ≤ N) (fuel mf : Nat) (hmf : v.lim - v.off + 1 ≤ mf) (hf : 2 * v.lim + 7 ≤ fuel)
+    (hw : EndsInside v.lim pj.tape) (h56 : v.lim < 2^56) :
+    SimDel N q (runFun goFuns goArray_DeleteElems fuel ⟨e0, pj.tape⟩) (View.arrDeleteElems pj q v.iter 0 #[] mf) :=
+  arrDeleteElems_sim pj v hl e0 h0 hlog q N hres hN fuel mf hmf hf
+    (arrDelInView_of_endsInside q mf pj v.iter 0 hw h56 (by simp [View.iter]))
+
+/-! ### the difference, concretely
+
+An array view of two words `[ '[' → 5 , ']' ]` whose opener's end pointer (5) lies beyond the view (`lim = 2`) but inside
+the array (5 words).  `DeleteElems(func(Iter) bool { return true })`: the model's `fillNops` checks the NOP writes against the
+whole tape and fills words 0‥4; Go writes through `i.tape.Tape`, whose length is 2, and panics at index 2. -/
+
+def pjOut : PJ :=
+  { tape := #[mkWord tagArrayStart 5, mkWord tagArrayEnd 0, 0, 0, 0], strings := #[], msg := #[] }
+def vOut : View := { lim := 2, off := 0 }
+def envOut : Env :=
+  [("a.off", .int 0), ("a.lim", .int 2)] ++ bufEnv pjOut ++ [("fn.results", .bools (answers 2 fun _ => true)), ("fn.log", .ints [])]
+
+example : (View.arrDeleteElems pjOut (fun _ => true) vOut.iter 0 #[] 3).isOk = true ∧
+    arrDelInView pjOut (fun _ => true) vOut.iter 0 3 = false ∧
+    ∀ fuel, 11 ≤ fuel → runFun goFuns goArray_DeleteElems fuel ⟨envOut, pjOut.tape⟩ = .panic := by
+  refine ⟨by decide +kernel, by decide +kernel, fun fuel hf => ?_⟩
+  have := arrDeleteElems_exact pjOut vOut (by decide) envOut ⟨rfl, rfl, rfl, rfl⟩ rfl (fun _ => true) 2 rfl (by decide)
+    fuel 3 (by decide) (by simpa [vOut] using hf)
+  rw [if_neg (by decide +kernel)] at this
+  exact this
+
 end SJ.GoDelete
